@@ -141,6 +141,11 @@ func (f *RedisKeyFilter) FilterCmdKey(cmd string, args [][]byte) ([][]byte, bool
 	// Resolve which argument positions are keys for the given command.
 	// Unknown commands or unsupported layouts are passed through unchanged.
 	indexes, ok := CommandKeyIndexes(cmd, args)
+	if !ok && strings.EqualFold(cmd, "sort") {
+		// SORT ... BY/GET <pattern> ... STORE dst: the static extractor gives up because of
+		// the pattern keys, but the sorted key and the STORE destination are still named.
+		indexes, ok = sortNamedKeyIndexes(args)
+	}
 	if !ok || len(indexes) == 0 {
 		return args, false
 	}
@@ -202,6 +207,22 @@ func (f *RedisKeyFilter) FilterCmdKey(cmd string, args [][]byte) ([][]byte, bool
 	default:
 		return args, true
 	}
+}
+
+// sortNamedKeyIndexes returns the sorted key and the STORE destination of a SORT command,
+// whatever BY/GET patterns it carries (SORT without STORE is read-only and has no keys here).
+func sortNamedKeyIndexes(args [][]byte) ([]int, bool) {
+	for i := 1; i+1 < len(args); i++ {
+		switch strings.ToLower(string(args[i])) {
+		case "by", "get":
+			i++
+		case "limit":
+			i += 2
+		case "store":
+			return []int{0, i + 1}, true
+		}
+	}
+	return nil, false
 }
 
 func (f *RedisKeyFilter) InsertSlotWhiteList(slots [][]uint16) {
